@@ -25,7 +25,7 @@ probed by replacing its interior with garbage; a block the translator reacts to 
 the CONTAINERS — the big solver `operator()`s, of which the translators read statement SITES only; the sites are listed in
 SITES by a regular expression on their first statement).  Macro tables are listed in TABLES.
 
-Usage:  tools/translator_mutation_audit.py [--jobs 12] [--translators gen_x.py,gen_y.py] [--units REGEX] [--list] [-v]
+Usage:  tools/translator_mutation_audit.py [--jobs 12] [--translators gen_x.py,gen_y.py] [--units REGEX] [--list] [--show] [--depth N]
         source tree: $VERIF_REPO (default /repo); it is only read.
 Output: one line per (translator, unit, mutation), a summary per translator, build/translator_audit.json; exit status 1 when
         there is a silent miss (waived ones — WAIVERS, each with its reason — are reported separately and do not count)."""
@@ -96,6 +96,12 @@ WAIVERS = [
      "equivalent mutant: the call recomputes its outputs (x̂, p) from unchanged inputs, calling it twice changes nothing"),
     (r"gen_C20_wrappers\.py\|.*dl-problem\.h\|struct alpaqa_(control_)?problem_functions_t@\d+\|swap ",
      "equivalent for the translation: the members of the C function table are accessed by name (functions->NAME), their order is not part of the tables"),
+    (r"gen_ocp\.py\|.*ocp-vars\.hpp\|fn forward@\d+\|swap .*(and `auto xN = vars\.xk\(storage, N\);`|and `auto yk = y\.segment\(t \* nc, nc\);`)",
+     "equivalent mutant: the moved declaration is a view (segment of a vector: no copy, no effect) that the other statement does not use"),
+    (r"gen_prox\.py\|.*l1-norm\.hpp\|fn prox@\d+\|swap .*swap `if \(λ == 0\) \{ out = in; return 0; \}` and `auto step = vec::Constant\(n, λ \* γ\);`",
+     "equivalent mutant: `step` is a lazy constant expression the early return does not use; computing it before the test changes nothing"),
+    (r"gen_sparsity\.py\|.*sparsity-conversions\.hpp\|fn convert_sparsity@\d+\|del .*delete `throw std::invalid_argument\(\"Lower-triangular",
+     "equivalent for the model: `case Symmetry::Lower:` then falls through to `default: throw std::invalid_argument(...)` — still an exception, only its message differs"),
     (r"gen_ocp\.py\|.*ocp-vars\.hpp\|fn forward@\d+\|swap .*swap `auto c[kN] = vars\.ck\(storage, [tN]\);` and `if \(vars\.nh(_N)?\(\) > 0\)",
      "equivalent mutant: `ck` / `cN` is a view into `storage` (no copy, no effect) that the following if statement does not use"),
     (r"gen_sparsity\.py\|.*sparsity-conversions\.hpp\|fn convert_values@\d+\|swap .*swap `(to\.setZero\(\)|from\(work\));` and `auto &&[Tf] = (to|work)\.reshaped\(",
@@ -176,7 +182,7 @@ def mask_preprocessor(S, M):
                     neg = name.startswith("!")
                     name = name.lstrip("! ").strip()
                     if name in PP_VALUES:
-                        val = PP_VALUES[name] != (d == "ifndef") != neg
+                        val = bool(PP_VALUES[name]) ^ (d == "ifndef") ^ neg
                         stack.append([val, True, val])
                     else:
                         stack.append([True, False, True])
@@ -226,6 +232,16 @@ def classify_block(M, partner, o):
         if po is None:
             return "other", ""
         head = M[max(0, po - 200):po]
+        while re.search(r"\bnoexcept\s*$", head):                 # `) const noexcept(...) -> T {`: the parameter list is further left
+            q = po - (len(head) - len(head.rstrip())) - len("noexcept")
+            seg2 = M[max(0, q - 40):q]
+            mm = re.search(r"\)(?:\s|\bconst\b|\boverride\b|\bmutable\b|\bfinal\b)*$", seg2)
+            if not mm:
+                return "other", ""
+            po = partner.get(q - len(seg2) + mm.start() if q >= 40 else mm.start())
+            if po is None:
+                return "other", ""
+            head = M[max(0, po - 200):po]
         m = re.search(r"(\bif\b|\bfor\b|\bwhile\b|\bswitch\b|\bcatch\b|\bif\s+constexpr)\s*$", head)
         if m:
             return "ctrl", m.group(1)
@@ -415,8 +431,12 @@ def list_entries(M, a, b, partner):
 
 # ----------------------------------------------------------------------------- mutations
 
+DEPTH = [1]         # --depth N multiplies the number of mutants chosen per kind and unit (a large N = every candidate)
+
+
 def spread(items, k):
     """k items of the list, evenly spaced, deterministic"""
+    k *= DEPTH[0]
     n = len(items)
     if n <= k:
         return list(items)
@@ -629,7 +649,7 @@ def mutants_code(S, M, a, b, partner, single_statement=False, site=False):
             classes.append(c[0])
     per = {c: spread([o for o in ops if o[0] == c], 2) for c in classes}
     rr = 0
-    while len(chosen) < 5 and any(per.values()):
+    while len(chosen) < 5 * DEPTH[0] and any(per.values()):
         c = classes[rr % len(classes)]; rr += 1
         if per[c]:
             chosen.append(per[c].pop(0))
@@ -996,7 +1016,9 @@ def main():
     ap.add_argument("--list", action="store_true", help="list the units and the number of mutants, run nothing")
     ap.add_argument("--show", action="store_true", help="print the changed lines of every silent miss")
     ap.add_argument("-v", action="store_true")
+    ap.add_argument("--depth", type=int, default=1, help="multiply the number of mutants per kind and unit (default 1; 1000 = every candidate)")
     a = ap.parse_args()
+    DEPTH[0] = max(1, a.depth)
     jobs = max(1, min(a.jobs, 12))
     work = os.environ.get("VERIF_AUDIT_WORK") or os.path.join(VERIF, "build", "translator_audit_work")
     os.makedirs(work, exist_ok=True)
